@@ -39,6 +39,8 @@ def run(index, rep):
     rep.guard(order, index, rep, fn)
     rep.guard(retime, index, rep)
     rep.guard(bump, index, rep)
+    from .lanes import lane_rule
+    rep.guard(lane_rule, index, rep, "C18.HANDOFF", ("round1", "round2", "round3"), 30, "results or constants of different rounds crossed at a hand-off")
 
 
 def cap(index, rep, fn, rule="C18.CAP"):
